@@ -295,7 +295,7 @@ class C13Pairs(Scenario):
 SPEC = PropSpec(
     prop="C13",
     scenarios=[(1, C13Pairs)],
-    runs={"quick": 8000, "thorough": 300000},
+    runs={"quick": 16000, "thorough": 400000},
     rule=("one run = a pair of plain / on-disk Bloom filters, counting Bloom filters or sketches in a drawn relation "
           "(compatible, identical, different est_elements, different rate, different hash strategy - only if the two "
           "strategies differ on the probe key 'test') fed seeded additions; at seeded points and at the end "
